@@ -611,7 +611,13 @@ func genRevisions(t *rapid.T) Case {
 // mostly errors - must come back the same in every run and load order.
 func genHostile(t *rapid.T) Case {
 	hostile.MaxChain = 300
-	h := hostile.Gen(t)
+	var h hostile.Case
+	if rapid.IntRange(0, 5).Draw(t, "several-faults-at-once") == 0 {
+		// the templates with several faults in one set of texts: which of them is reported may not vary
+		h = hostile.TemplateFrom(t, []string{"header-mix", "error-budget", "duplicates", "absent", "bad-augment", "bad-deviation"})
+	} else {
+		h = hostile.Gen(t)
+	}
 	c := Case{Runs: 3, Lenient: true, Ignore: h.IgnoreNotSupp, IgnoreCirc: h.IgnoreCirc, Features: []string{"hostile/" + h.Gen}}
 	seen := map[string]bool{}
 	for _, f := range h.Files {
